@@ -230,4 +230,16 @@ PROPS = {
             {"name": "c15.matrix", "pkg": ROUTING, "test": "TestVerifC15Matrix", "shards_t": 16, "shards_q": 8, "crash_is_violation": True},
         ],
     },
+    "C07": {
+        "level": "exploration",
+        "technique": "stateful rapid property tests with a reference mailbox model: agent level (real MuxAgent + RestAgent + WebSocketAgent + mock/ping agents) and node level (simulator); forced deliver-during-fetch interleavings through schedule hooks",
+        "level_text": "Histories of register / unregister / deliver / fetch / connect / close are executed against the real agents; a marker bundle per endpoint is the barrier; after every fetch and at the end each client's received multiset must equal the model's. At node level bundles for registered endpoints must reach every matching agent once and no peer. The two lost-update interleavings of deliver and fetch on one REST mailbox are forced by hooks.",
+        "level_note": "WebSocket clients are real connections to an httptest server on loopback; REST requests go through the router without a socket",
+        "assumptions": ["a REST client that unregisters loses its mailbox (as the handler documents)"],
+        "units": [
+            {"name": "c07.agents", "pkg": AGENT, "test": "TestVerifC07Agents", "shards_t": 16, "shards_q": 4, "crash_is_violation": True},
+            {"name": "c07.mailbox-race", "pkg": AGENT, "test": "TestVerifC07MailboxRace", "shards_t": 8, "shards_q": 2, "crash_is_violation": True},
+            {"name": "c07.node", "pkg": ROUTING, "test": "TestVerifC07Node", "shards_t": 16, "shards_q": 4, "crash_is_violation": True},
+        ],
+    },
 }
